@@ -94,6 +94,7 @@ def _gen_from(rnd):
         case["pipeline"] = True
         if rnd.chance(35):
             case["t"] = {}
+        case["pipeline_safe"] = rnd.chance(35)   # with ACLs and --acl-safe: the safe pair of trees is built as well
     return case
 
 
@@ -157,6 +158,21 @@ def _is_subtree(a, b):
         else:
             return False
     return True
+
+
+def _ref_rules(dev):
+    """the device's implicit rules built here from the vendor table (implicit._implicit_tree) - not by implicit.compile_tree; whether a
+    line matches a rule's pattern is still decided by the shared pattern compiler (C07's subject)"""
+    from annet import implicit
+    from annet.annlib.rbparser.syntax import compile_row_regexp
+
+    def build(tree):
+        out = odict()
+        for _, attrs in tree.items():
+            out[attrs["row"]] = {"type": attrs["type"], "regexp": compile_row_regexp(attrs["row"]),
+                                 "children": build(attrs["children"]) if attrs.get("children") else odict()}
+        return out
+    return build(implicit._implicit_tree(dev))
 
 
 def _canon_rules(rules):
@@ -240,10 +256,13 @@ def _pipeline(case, dev0, rules, labels):
 
     def run(self, device):
         yield from emit(self, u)
-    gen = type("VGen", (PartialGenerator,), {"run": run, "acl": lambda self, device: ""})(_t.SimpleNamespace(flush_perf=lambda: {}))
+    safe = bool(case.get("pipeline_safe"))
+    everything = "~ %global\n" if safe else ""
+    gen = type("VGen", (PartialGenerator,), {"run": run, "acl": lambda self, device: everything,
+                                             "acl_safe": lambda self, device: everything})(_t.SimpleNamespace(flush_perf=lambda: {}))
 
     class Args:
-        no_acl = True; no_acl_exclusive = False; acl_safe = False; profile = False; fail_on_empty_config = False
+        no_acl = not safe; no_acl_exclusive = False; acl_safe = safe; profile = False; fail_on_empty_config = False
         generators_context = None; filter_acl = None; filter_ifaces = None; filter_peers = None; filter_policies = None
         required_packages_check = False
     dg = G.DeviceGenerators(partial={dev: [gen]}, ref={dev: []}, entire={dev: []}, json_fragment={dev: []})
@@ -256,7 +275,11 @@ def _pipeline(case, dev0, rules, labels):
         res = G._old_new_per_device(ctx, dev, mock.Mock())
     if res.err:
         raise Violation("pipeline-error", f"{model}: _old_new_per_device failed: {res.err!r}", {"model": model, "t": case["t"], "u": case["u"]})
-    for name, got, src in (("old", res.old, t), ("new", res.new, u)):
+    pairs = [("old", res.old, t), ("new", res.new, u)]
+    if safe:
+        pairs += [("safe old", res.safe_old, t), ("safe new", res.safe_new, u)]
+        labels.append("pipeline-acl-safe")
+    for name, got, src in pairs:
         exp = ref_complete(src, rules, [], [])
         if _unordered(got) != _unordered(exp):
             raise Violation("pipeline-completion-differs", f"{model}: {name} built by the gen step is {RL.plain(got)!r}; completing "
@@ -279,19 +302,23 @@ def check(case):
     model, tags = FAMILIES[case["family"]]
     dev = _device(model, tags)
     rules = implicit.compile_rules(dev)
+    ref_rules = _ref_rules(dev)
     labels = ["family:%s%s" % (model, "+" + tags[0] if tags else "")]
+    if _canon_rules(rules) != _canon_rules(ref_rules):
+        raise Violation("compiled-rules-differ-from-table", f"{model} tags={tags}: implicit.compile_rules does not carry the vendor table as "
+                        f"written (a rule is missing, added or changed)", {"model": model, "tags": tags})
     # the defaults are those of THIS device (model and tags), whatever devices the process has served before
     if _canon_rules(rules) != _baseline()[str(case["family"])]:
         raise Violation("rules-depend-on-history", f"{model} tags={tags}: the implicit rules compiled now differ from those compiled for the "
                         f"same device in a fresh process", {"model": model, "tags": tags})
     if case.get("pipeline"):
-        _pipeline(case, dev, rules, labels)
+        _pipeline(case, dev, ref_rules, labels)
     res = {}
     for name in ("t", "u"):
         t = RL.to_odict(case[name])
         m = merge_dicts(t, implicit.config(t, rules))
         added, supp = [], []
-        exp = ref_complete(t, rules, added, supp)
+        exp = ref_complete(t, ref_rules, added, supp)
         det = {"model": model, "tree": case[name], "completed": RL.plain(m), "expected": RL.plain(exp),
                "added_block_without_children": False}
         if not _is_subtree(t, m):
